@@ -198,7 +198,7 @@ Proof.
     change (46 =? 0) with false. change (46 =? 46) with true. cbv iota. unfold bind.
     assert (Hnw : nws (r ++ X)) by (apply (proj1 (start_okS _ (filler_start r X Hr HX)))).
     destruct (reads_tok t_dot w true Hw (r ++ X) ln ac Hnw) as [ln1 E1]. rewrite <- !app_assoc in E1. rewrite E1.
-    destruct (IH X tail n eff HX Hrun fu ln1 ([] ++ ac)) as [ln2 E2]; [rewrite !app_length in Hf; cbn [length] in Hf; lia|].
+    destruct (IH X tail n eff HX Hrun fu ln1 ([] ++ ac)) as [ln2 E2]; [rewrite !app_length in Hf; change (length t_dot) with 1%nat in Hf; lia|].
     rewrite E2. eexists. reflexivity.
 Qed.
 
@@ -215,9 +215,11 @@ Proof.
     intros fuel ln ac Hfu. destruct fuel as [|fu]; [lia|].
     assert (Hnw : nws (t ++ r ++ tend ++ tail)) by (apply (proj1 (start_okS _ (stmt_start c t _ Hc Ht)))).
     rewrite stmts_unfold by exact Hnw.
-    assert (Hhd : hd 0 (t ++ r ++ tend ++ tail) = hd 0 t).
-    { pose proof (stmt_start c t [] Hc Ht) as Hs. destruct t as [|x q]; [|reflexivity].
-      exfalso. destruct (r_stmt inc c [] Hc Ht) as [[E _] | (E & _)]; [discriminate E | apply E; reflexivity]. }
+    assert (Htne : exists x q, t = x :: q).
+    { destruct t as [|x q]; [|eauto]. exfalso. destruct (r_stmt inc c [] Hc Ht) as [[E _] | (E & _)]; [discriminate E | apply E; reflexivity]. }
+    destruct Htne as (x & q & Et).
+    assert (Hhd : hd 0 (t ++ r ++ tend ++ tail) = hd 0 t) by (rewrite Et; reflexivity).
+    assert (Htl : (1 <= length t)%nat) by (rewrite Et; simpl; lia).
     rewrite Hhd. unfold stmts_body.
     destruct (r_stmt inc c t Hc Ht) as [[E35 Hd] | (N0 & N46 & N35 & N37 & Hrule)].
     + rewrite E35. change (35 =? 0) with false. change (35 =? 46) with false. change (35 =? 35) with true. cbv iota. unfold bind.
